@@ -258,7 +258,7 @@ def voting_type_travels(ctx, R):
     for tname, t in T.TRACKERS.items():
         if not t['visual']:
             continue
-        lb = ctx.anchor(R, t['loop'])
+        lb = ctx.anchor(R, T.result_path(t))
         if lb is None:
             continue
         eb = ExprBuilder(lb)
@@ -268,7 +268,8 @@ def voting_type_travels(ctx, R):
         ok = len(ao) == 1 and len(me) == 1 and lb.dominates(ao[0].bb, me[0].bb)
         detail = ''
         if ok:
-            upd = eb.arg(ao[0], 4)
+            from lib import subst_upvars
+            upd = subst_upvars(ctx.F, lb, eb.arg(ao[0], 4))
             detail = repr(upd)[:160]
             vt = upd.calls('new_voting_type')
             ok = bool(vt) and vt[0].args[0].has_call('winners') and (
